@@ -56,26 +56,30 @@ Theorem C03_half_close_independent_client_first : forall c s,
   reachable_ff c s -> terminal c s -> final c s.
 Proof. exact half_close_to_upstreams. Qed.
 (* (b) the upstreams finish first, the client only after it has seen EOF: for every chain whose
-   transport offers half-close and that contains only connection types of this repository *)
+   transport offers half-close and whose wrappers are the ones the shipped handlers build *)
 Theorem C03_half_close_independent_upstream_first : forall c s,
-  ~ In LProxyProtocol (down c) -> transport_offers (down c) = true ->
+  ~ In LHiding (down c) -> transport_offers (down c) = true ->
   (forall i, i < n_up c -> ufin c i = FinFree /\ up_cw c i = true) ->
   reachable_ff c s -> terminal c s -> final c s.
 Proof. exact half_close_to_client. Qed.
 
-(* the method sets: behind wrappers of this repository CloseWrite on down.Conn reaches the transport
-   exactly when the transport offers it (gen/Shape.v: Connection, throttledConn, nextConn declare it) *)
-Theorem C03_half_close_offered : forall ch, ~ In LProxyProtocol ch -> cw_effect ch = transport_offers ch.
+(* the method sets: behind every wrapper the shipped handlers build - layer4.Connection, throttledConn, tee's
+   nextConn, proxy_protocol's proxyConn around the third-party conn - CloseWrite on down.Conn reaches the
+   transport exactly when the transport offers it.  Rests on gen/Shape.v: each of these types declares
+   CloseWrite; it stops checking when one of the methods disappears from the source. *)
+Theorem C03_half_close_offered : forall ch, ~ In LHiding ch -> cw_effect ch = transport_offers ch.
 Proof. exact cw_effect_repo. Qed.
 Example C03_shipped_chains :
   cw_effect chain_direct = true /\ cw_effect chain_throttle = true /\ cw_effect chain_tee = true /\
+  cw_effect chain_proxy_protocol = true /\
   cw_effect chain_tls = true /\ cw_effect chain_udp = false /\ transport_offers chain_udp = false.
 Proof. vm_compute. repeat split. Qed.
 
-(* refuted for the third-party *proxyprotocol.Conn (recorded finding): the transport offers half-close,
-   the upstream has finished and everything has been delivered, yet nobody sees EOF and Handle waits.
-   (Before commits 4d2bee9 / 6a24666 the same held for [throttle; tcp] and [tee; l4conn; tcp].) *)
-Theorem C03_half_close_lost_refuted : exists c s,
+(* why the methods matter (what was wrong before commits 4d2bee9, 6a24666, 96c36fc): behind a wrapper that
+   embeds net.Conn and declares no CloseWrite ([LHiding], e.g. a bare third-party *proxyprotocol.Conn) the
+   transport offers half-close, the upstream has finished and everything has been delivered, yet nobody
+   sees EOF and Handle waits.  No shipped handler builds such a chain any more. *)
+Theorem C03_half_close_lost_behind_hiding_wrapper : exists c s,
   transport_offers (down c) = true /\ cfin c = FinAfterEof /\ (forall i, i < n_up c -> ufin c i = FinFree /\ up_cw c i = true) /\
   reachable_ff c s /\ terminal c s /\ lossy (px s) = false /\
   u_finned (ups s 0) = true /\ proj 0 (c_log (cl s)) = u_total c 0 /\ u_log (ups s 0) = c_total c /\
@@ -107,7 +111,7 @@ Print Assumptions C03_relay_completes.
 Print Assumptions C03_half_close_independent_client_first.
 Print Assumptions C03_half_close_independent_upstream_first.
 Print Assumptions C03_half_close_offered.
-Print Assumptions C03_half_close_lost_refuted.
+Print Assumptions C03_half_close_lost_behind_hiding_wrapper.
 Print Assumptions C03_cleanup_on_dial_failure.
 Print Assumptions C03_dial_success_closes_nothing.
 Print Assumptions C03_nonvacuous.
